@@ -114,8 +114,9 @@ def _param_dependent_stopgrads(term, pnames):
 
 # ------------------------------------------------------------------ C14
 
-def grad_faithful_ob(crit, stepwise, Hn, eval_mode=False, second_call=False):
-    tag = '%s,%s,H=%d%s%s' % (crit, 'prev_hedge' if stepwise else 'stateless', Hn, ',eval-mode' if eval_mode else '', ',second call' if second_call else '')
+def grad_faithful_ob(crit, stepwise, Hn, eval_mode=False, second_call=False, module_output=False):
+    tag = '%s,%s,H=%d%s%s%s' % (crit, 'prev_hedge' if stepwise else 'stateless', Hn, ',eval-mode' if eval_mode else '', ',second call' if second_call else '',
+                                ',prev_hedge through a parameter-free ModuleOutput' if module_output else '')
 
     def check():
         t0 = time.time()
@@ -129,6 +130,18 @@ def grad_faithful_ob(crit, stepwise, Hn, eval_mode=False, second_call=False):
                 import pfhedge.nn as pnn
                 d = mk_sim_derivative(Tc, cost=SReal(tm.var('c1')))
                 feats = ['log_moneyness', 'time_to_maturity'] + (['prev_hedge'] if stepwise else [])
+                if module_output:
+                    # the recurrent input reaches the model only through a ModuleOutput feature whose module has NO parameters
+                    import torch
+                    from pfhedge.features import ModuleOutput
+                    from pfv.torchlib.tensor import Tensor
+
+                    class ParamFree(torch.nn.Module):
+                        def forward(self, x):
+                            rd = x.reader()
+                            Fn = x._shape[-1]
+                            return Tensor.fresh(lambda idx: tm.app('G', *[rd(idx[:-1] + (tm.const(k_, 'I'),)) for k_ in range(Fn)]), x._shape[:-1] + (1,), x.dtype, x.deps)
+                    feats = ['log_moneyness', ModuleOutput(ParamFree(), inputs=['prev_hedge', 'time_to_maturity'])]
                 model = H.UserModel.make(Hn, record=rec)
                 hedger = pnn.Hedger(model, feats, criterion=mk_criterion(crit))
                 hl = None
@@ -161,7 +174,7 @@ def grad_faithful_ob(crit, stepwise, Hn, eval_mode=False, second_call=False):
             if cut:
                 return Verdict('refuted', 'ghost connectivity', time.time() - t0, 'a parameter-dependent part of the loss is cut from the graph: %s' % tm.show(cut[0])[:300],
                                witness={'cut': tm.show(cut[0])[:400]}, sample=sample, replay=_replay_grad())
-            if stepwise and inputs:
+            if stepwise and inputs and not module_output:
                 first = inputs[0]
                 # the zero prev_hedge at step 0 must be a fresh leaf: no graph from an earlier run
                 if first.deps - frozenset(pnames) or any(q in first.deps for q in pnames):
@@ -178,7 +191,7 @@ def grad_faithful_ob(crit, stepwise, Hn, eval_mode=False, second_call=False):
                       clause='compute_loss(enable_grad=True) [%s]: connected to every model parameter through features, recurrent input, gains, costs, payoff and criterion; nothing parameter-dependent is detached' % tag)
 
 
-def no_graph_ob(which):
+def no_graph_ob(which, crit='entropic_risk'):
     def check():
         t0 = time.time()
         Tc = 3
@@ -188,7 +201,7 @@ def no_graph_ob(which):
             def run(c):
                 import pfhedge.nn as pnn
                 d = mk_sim_derivative(Tc, cost=SReal(tm.var('c1')))
-                hedger = pnn.Hedger(H.UserModel.make(1), ['log_moneyness', 'time_to_maturity', 'prev_hedge'], criterion=mk_criterion('entropic_risk'))
+                hedger = pnn.Hedger(H.UserModel.make(1), ['log_moneyness', 'time_to_maturity', 'prev_hedge'], criterion=mk_criterion(crit))
                 if which == 'price':
                     return hedger.price(d, n_paths=SInt(NP)), c.grad_enabled
                 return hedger.compute_loss(d, n_paths=SInt(NP), enable_grad=False), c.grad_enabled
@@ -203,7 +216,7 @@ def no_graph_ob(which):
                 return Verdict('refuted', 'ghost connectivity', time.time() - t0, '%s carries a graph (deps %s) or leaves the grad mode changed (%s)' % (which, sorted(res.deps), mode_after),
                                witness={'deps': sorted(res.deps)}, replay=_replay_grad())
         return Verdict('proved', 'ghost connectivity', time.time() - t0, '', sample={'claim': '%s carries no graph and restores the grad mode' % which})
-    return Obligation('TR/%s/no-graph' % which, 'ghost', 'pfhedge.nn.modules.hedger.Hedger.' + ('price' if which == 'price' else 'compute_loss'), check, ['C14'],
+    return Obligation('TR/%s/no-graph%s' % (which, '' if crit == 'entropic_risk' else '[criterion=%s]' % crit), 'ghost', 'pfhedge.nn.modules.hedger.Hedger.' + ('price' if which == 'price' else 'compute_loss'), check, ['C14'],
                       clause='%s carries no graph (evaluation only) and restores the previous grad mode' % ('price() by default' if which == 'price' else 'compute_loss(enable_grad=False)'))
 
 
@@ -235,6 +248,18 @@ for feats in (["log_moneyness", "time_to_maturity"], ["log_moneyness", "time_to_
         if mode == "eval": hedger.eval()
         if mode == "second": hedger.compute_pl(d)
         fd_check(hedger, d, (tuple(feats), mode))
+# recurrent input reaching the model only through a parameter-free ModuleOutput feature
+from pfhedge.features import ModuleOutput
+und = BrownianStock(sigma=0.3, dt=0.01, cost=1e-3, dtype=torch.float64); d = EuropeanOption(und, maturity=0.08); d.simulate(n_paths=16)
+mo = ModuleOutput(torch.nn.Tanh(), inputs=["prev_hedge", "time_to_maturity"])
+hedger = pnn.Hedger(torch.nn.Sequential(torch.nn.Linear(3, 4), torch.nn.Tanh(), torch.nn.Linear(4, 1)).double(), ["log_moneyness", mo], criterion=pnn.EntropicRiskMeasure())
+fd_check(hedger, d, ("module-output", "train"))
+# a criterion with its own trainable parameter: evaluation-only loss must carry no graph
+from pfhedge.nn.modules.loss import OCE
+und = BrownianStock(dtype=torch.float64); d = EuropeanOption(und)
+hedger = pnn.Hedger(torch.nn.Linear(2, 1).double(), ["log_moneyness", "time_to_maturity"], criterion=OCE(lambda x: 1 - (-x).exp()))
+for nt in (1, 3):
+    if hedger.compute_loss(d, n_paths=8, n_times=nt, enable_grad=False).requires_grad: bad.append("compute_loss(enable_grad=False) with a parametric criterion carries a graph (n_times=%d)" % nt)
 und = BrownianStock(dtype=torch.float64); d = EuropeanOption(und); hedger = pnn.Hedger(torch.nn.Linear(2, 1).double(), ["log_moneyness", "time_to_maturity"])
 pr = hedger.price(d, n_paths=8)
 if pr.requires_grad: bad.append("price carries a graph")
@@ -257,8 +282,11 @@ def c14_obligations(seed, tier='quick'):
     obs.append(grad_faithful_ob('entropic_risk', True, 1, eval_mode=True))
     obs.append(grad_faithful_ob('entropic_risk', True, 1, second_call=True))
     obs.append(grad_faithful_ob('expected_shortfall', False, 1, eval_mode=True))
+    obs.append(grad_faithful_ob('entropic_risk', True, 1, module_output=True))
     obs.append(no_graph_ob('price'))
     obs.append(no_graph_ob('compute_loss(enable_grad=False)'))
+    # a criterion that owns a trainable parameter (OCE's w): evaluation-only quantities must still carry no graph
+    obs.append(no_graph_ob('compute_loss(enable_grad=False)', crit='oce'))
     return obs
 
 
